@@ -70,6 +70,8 @@ class LockProto:
                 if _self_attr(tgt) == self.lock_attr and isinstance(s.value, ast.BinOp):
                     a = _self_attr(s.value.left)
                     suffix = s.value.right
+                    if isinstance(suffix, ast.Name) and suffix.id in self.m.consts:
+                        suffix = self.m.consts[suffix.id]            # a module-level constant holding the suffix
                     if a and isinstance(suffix, ast.Constant) and suffix.value in (".lock", b".lock"):
                         self.target_attr = a
         self.closed_attr = None
@@ -180,7 +182,10 @@ def r07_1(prog: Program, rep):
     F = FILE_PY
     q = lambda name: f"{lp.cname}.{name}"
     # (a) acquisition
-    flags = _flag_names(lp.open_call.args[1]) if len(lp.open_call.args) > 1 else set()
+    fl_expr = lp.open_call.args[1] if len(lp.open_call.args) > 1 else None
+    if isinstance(fl_expr, ast.Name) and fl_expr.id in lp.m.consts:
+        fl_expr = lp.m.consts[fl_expr.id]                        # flags hoisted into a module-level constant
+    flags = _flag_names(fl_expr) if fl_expr is not None else set()
     rep.ob("R07.1a", F, q("__init__"), "os.open flags contain O_CREAT|O_EXCL",
            {"O_CREAT", "O_EXCL"} <= flags, f"flags={sorted(flags)}", lp.open_call.lineno)
     rep.ob("R07.1a", F, q("__init__"), "lock path is <target>.lock", lp.target_attr is not None,
